@@ -280,6 +280,7 @@ def make_rows(mod, id_):
     out["keep1:other-names"].append(with_args(out["keep1"][0], {"a": int, "options": td, "b": List[td]}))
     out["renamed:other-names"].append(with_args(out["renamed"][0], {"a": td, "c": int}))
     # rows of functions that were defined in a local scope when they were traced: never decodable, whatever the module looks like now
+    out["<deep-target>"] = [CallTraceRow.from_trace(CallTrace(deep.deep_fn, {"a": int}, int)), CallTraceRow.from_trace(CallTrace(deep.deep_fn, {"a": str}, str))]
     out["<local-scope>"] = [CallTraceRow(mod.__name__, "keep1.<locals>.inner", out["keep1"][0].arg_types, out["keep1"][0].return_type, None),
                             CallTraceRow(mod.__name__, "K.keepm.<locals>.cb", out["keep1"][1].arg_types, None, None),
                             CallTraceRow(mod.__name__, "make.<locals>.Local.method", out["keep1"][0].arg_types, None, out["keep2"][0].yield_type)]
@@ -339,7 +340,7 @@ def work(p):
         open(os.path.join(sd, f"vfstalepkg_{id_}", "sub_v2.py"), "w").write("class SubCls2:\n    pass\n")
         os.makedirs(os.path.join(sd, f"vfstalepkg_{id_}", "mid"))
         open(os.path.join(sd, f"vfstalepkg_{id_}", "mid", "__init__.py"), "w").write("")
-        open(os.path.join(sd, f"vfstalepkg_{id_}", "mid", "deep.py"), "w").write("class DeepCls:\n    pass\n")
+        open(os.path.join(sd, f"vfstalepkg_{id_}", "mid", "deep.py"), "w").write("class DeepCls:\n    pass\n\n\ndef deep_fn(a):\n    return a\n")
         sys.path.insert(0, sd)
         importlib.invalidate_caches()
         try:
@@ -388,7 +389,16 @@ def work(p):
         db1, db2 = os.path.join(sd, "all.sqlite3"), os.path.join(sd, "valid.sqlite3")
         write_db(db1, [r for r, _, _ in seq])
         write_db(db2, [r for r, st, _ in seq if not st])
-        if removed_target:
+        target = mname
+        if case.get("target_removed") == "dotted":
+            # the command is asked for a module inside a package, and the PARENT package is gone (the directory was deleted)
+            target = f"vfstalepkg_{id_}.mid.deep"
+            shutil.rmtree(os.path.join(sd, f"vfstalepkg_{id_}", "mid"), ignore_errors=True)
+            seq = [(r, True, "target-parent-package-removed") for r in rows["<deep-target>"]]
+            write_db(db1, [r for r, _, _ in seq])
+            write_db(db2, [])
+            res.count("target_parent_package_removed_cases")
+        elif removed_target:
             # the traced module itself is gone: every one of its rows is stale
             seq = [(r, True, "target-module-removed") for r, _, _ in seq]
             write_db(db1, [r for r, _, _ in seq])
@@ -399,11 +409,13 @@ def work(p):
         for cmd in case["cmds"]:
             res.count("evaluations")
             res.count("commands_" + cmd.replace(" ", "_"))
-            argv = {"stub": ["stub", mname], "stub -v": ["-v", "stub", mname], "apply": ["apply", mname]}[cmd]
+            argv = {"stub": ["stub", target], "stub -v": ["-v", "stub", target], "apply": ["apply", target]}[cmd]
             if case.get("k"):
                 argv = ["-c", f"vf.mon.cfg:K{case['k']}_DEFAULT"] + argv
                 res.count("commands_with_typeddict_limit")
             def reset():
+                if case.get("target_removed") == "dotted":
+                    return
                 if removed_target:
                     if os.path.exists(modfile):
                         os.remove(modfile)
@@ -479,7 +491,7 @@ def run(ck):
     for j in range(2 if quick else 6):
         cid += 1
         cases.append({"id": f"{ck.seed}_{cid}", "seed": f"C10:{ck.seed}:{cid}", "kinds": [], "valid": ["keep1", "keep2"], "cmds": ["stub", "stub -v", "apply"],
-                      "dup": False, "target_removed": True})
+                      "dup": False, "target_removed": True if j % 2 == 0 else "dotted"})
     n = core.NPROC
     for r in core.pmap("vf.props.c10:work", [{"cases": cases[i::n]} for i in range(n)], timeout=3400):
         ck.merge(r)
@@ -489,7 +501,8 @@ def run(ck):
     ck.need("commands_stub", 30)
     ck.need("commands_apply", 30)
     ck.need("nothing_decodable_cases", 3)
-    ck.need("target_removed_cases", 2)
+    ck.need("target_removed_cases", 1)
+    ck.need("target_parent_package_removed_cases", 1)
     ck.need("verbose_warnings_seen", 30)
     ck.need("rows_disagreeing_on_parameter_names", 20)
     ck.need("cases_with_local_scope_rows", 10)
